@@ -21,7 +21,10 @@ pub fn run(o: &Opts) -> Report {
         let has_missing = kind == 2 && rng.chance(2, 3);
         let has_env = rng.chance(1, 2);
         let env_set = has_env && rng.chance(3, 4);
-        let has_if = takes && rng.chance(1, 2);
+        // `s` overrides the trigger arg (then no conditional defaults on it); or the whole command ignores errors
+        let s_overrides_t = rng.chance(1, 5);
+        let ignore_errors = rng.chance(1, 5);
+        let has_if = takes && !s_overrides_t && rng.chance(1, 2);
         let val = |rng: &mut Rng, tag: &str| -> String { if delim && rng.chance(1, 2) { format!("{tag}1,{tag}2") } else { tag.to_string() } };
         let default_v = if takes { val(&mut rng, "dflt") } else if kind == 6 { "7".to_string() } else { if rng.chance(1, 2) { "true".into() } else { "false".into() } };
         let env_v = if takes { val(&mut rng, "env") } else if kind == 6 { "3".to_string() } else { if rng.chance(1, 2) { "true".into() } else { "false".into() } };
@@ -37,6 +40,7 @@ pub fn run(o: &Opts) -> Report {
             }
             s.default_ifs = ifs.iter().map(|(p, d)| ("t".to_string(), p.clone(), d.clone())).collect();
         }
+        if s_overrides_t { s.overrides.push("t".into()); }
         let t = ArgS { id: "t".into(), long: Some("trig".into()), action: Some("set"), ..Default::default() };
         // observers: `c` conflicts with s, `r` requires s, `u` is required unless s is present
         let obs = rng.below(4);
@@ -49,7 +53,8 @@ pub fn run(o: &Opts) -> Report {
         }
         let mut args = others.clone();
         args.push(s.clone());
-        let cmd = CmdS { name: "prog".into(), args, ..Default::default() };
+        let mut cmd = CmdS { name: "prog".into(), args, ..Default::default() };
+        cmd.settings.ignore_errors = ignore_errors;
         if !real_valid(&cmd) { rep.count("invalid_definition(skipped)"); continue; }
         // argv
         let mut argv: Vec<Vec<u8>> = vec![b"prog".to_vec()];
@@ -66,6 +71,7 @@ pub fn run(o: &Opts) -> Report {
         }
         let obs_given = obs != 0 && rng.chance(2, 3);
         if obs_given { argv.push(match obs { 1 => b"--cc".to_vec(), 2 => b"--rr".to_vec(), _ => b"--uu".to_vec() }); }
+        if ignore_errors { argv.push(b"--bogus".to_vec()); }
         let (canon, mm, err) = real_parse(&cmd, &argv);
         let req = parse_request(&cmd, &argv);
         // ---- expected origin
@@ -88,11 +94,17 @@ pub fn run(o: &Opts) -> Report {
         };
         let s_explicit = matches!(exp_src, Some(ValueSource::CommandLine) | Some(ValueSource::EnvVariable));
         // expected verdict from the observers: only explicit presence counts
-        let exp_err: Option<&str> = if obs_given { match obs { 1 if s_explicit => Some("ArgumentConflict"), 2 if !s_explicit => Some("MissingRequiredArgument"), _ => None } }
+        // an explicit (env) value of an arg that overrides `t` is an implicit conflict with a command-line `t`;
+        // a command-line `s` given after `t` simply removes `t`
+        let override_conflict = s_overrides_t && trig.is_some() && !on_cmdline && env_set;
+        // a requirement on `s` is excused while an arg that conflicts with it (the overridden `t`) is present
+        let excused = s_overrides_t && trig.is_some();
+        let exp_err: Option<&str> = if ignore_errors { None } else if override_conflict { Some("ArgumentConflict") } else if obs_given { match obs { 1 if s_explicit => Some("ArgumentConflict"), 2 if !s_explicit && !excused => Some("MissingRequiredArgument"), _ => None } }
             else if obs == 3 && !s_explicit { Some("MissingRequiredArgument") } else { None };
         match (&mm, &err) {
             (Some(m), _) => {
-                if let Some(k) = exp_err { rep.oracle_fail(if s_explicit { "explicit-value-did-not-trigger-relation" } else { "default-counted-as-presence-or-requirement-ignored" }, &req, &format!("expected {k}, parse succeeded")); }
+                if override_conflict && !ignore_errors && m.value_source("t") != Some(ValueSource::CommandLine) { rep.oracle_fail("env-value-removed-a-command-line-arg", &req, &format!("t source {:?}", m.value_source("t"))); }
+                if let Some(k) = exp_err { rep.oracle_fail(if override_conflict { "env-value-removed-a-command-line-arg" } else if s_explicit { "explicit-value-did-not-trigger-relation" } else { "default-counted-as-presence-or-requirement-ignored" }, &req, &format!("expected {k}, parse succeeded")); }
                 let got_src = m.value_source("s");
                 let got_vals: Vec<String> = m.get_raw("s").map(|r| r.map(|v| v.to_string_lossy().to_string()).collect()).unwrap_or_default();
                 if got_src != exp_src { rep.oracle_fail("value-source-misreported", &req, &format!("got {got_src:?} expected {exp_src:?}")); }
